@@ -127,7 +127,12 @@ func (mv *MessageView) SnapshotRequest(req *http.Request) error {
 
 	mv.traileroffset = int64(buf.Len())
 
-	req.Body = ioutil.NopCloser(bytes.NewReader(data))
+	// http.NoBody stays http.NoBody: net/http frames a request whose Body is
+	// neither nil nor http.NoBody and whose ContentLength is 0 as being of
+	// unknown length ("Transfer-Encoding: chunked").
+	if req.Body != http.NoBody {
+		req.Body = ioutil.NopCloser(bytes.NewReader(data))
+	}
 
 	if req.Trailer != nil {
 		req.Trailer.Write(buf)
